@@ -402,6 +402,17 @@ fn execute(job: &TJob, ctx: Arc<Mutex<Ctx>>, on_deadlock: sched::DeadlockHandler
             finish_held(&sh, held, lru);
         }
         finish_held(&sh, held0, lru);
+        // A fetch task whose caller was answered by a concurrent insert before ever polling it is still
+        // sitting in the runtime (it owns a clone of the cache): let the runtime finish such tasks, as a
+        // real runtime would.
+        let mut drained = 0;
+        while let Some(id) = tokio::sim::ready().first().copied() {
+            tokio::sim::poll(id);
+            drained += 1;
+            if drained > 1000 {
+                break;
+            }
+        }
         // quiescent epilogue: accounting must be consistent and within capacity
         let usage = cache.usage();
         let entries = cache.entries();
